@@ -35,7 +35,7 @@ def run(ctx):
 
     # ---- routes on scenario calendars: a year around 2000 and the cut-over year 1582
     def scenario(Y, ny):
-        return Y, typical_terms(range(Y - 2, Y + 3)), synthetic_months(Y - 1, ny, 3, prev_months=3)
+        return Y, typical_terms(range(Y - 2, Y + 3)), synthetic_months(Y - 1, ny, 3, leap={Y: 4}, prev_months=3)
     scen = [scenario(2000, CAL.jdn(1999, 2, 16)), scenario(1582, CAL.jdn(1581, 2, 4))]
 
     def routes(x):
@@ -53,12 +53,17 @@ def run(ctx):
         w1 = t.idx(t.m(sd, 'get_week'))
         w2 = t.idx(t.m(lunar, 'get_week'))
         back = cm.n_of(t.m(lunar, 'get_solar_day'))
-        return (a, b, c, d, h, w1, w2, back)
+        # the 23:00 hour view reports the NEXT day's pillar, and asking it first must not disturb what its lunar day answers afterwards
+        lh = t.m(cm.solar_time_n(n, 84600), 'get_lunar_hour')
+        h23 = t.name(t.m(t.m(lh, 'get_sixty_cycle_hour'), 'get_day'))
+        after = t.name(t.m(t.m(t.m(lh, 'get_lunar_day'), 'get_sixty_cycle_day'), 'get_sixty_cycle'))
+        own = t.name(t.m(t.m(lh, 'get_lunar_day'), 'get_sixty_cycle'))
+        return (a, b, c, d, h, w1, w2, back, h23, after, own)
 
     def routes_orc(x):
         si, n = x
         pn = G.sixty((n + 49) % 60)
-        return (pn, pn, pn, pn, pn, (n + 1) % 7, (n + 1) % 7, n)
+        return (pn, pn, pn, pn, pn, (n + 1) % 7, (n + 1) % 7, n, G.sixty((n + 50) % 60), pn, pn)
     dom2 = [(0, n) for n in range(CAL.jdn(1999, 12, 20), CAL.jdn(2001, 1, 15))] + [(1, n) for n in range(CAL.jdn(1582, 9, 1), CAL.jdn(1582, 11, 30))]
     table(ctx, 'PETE-SCENARIO', 'day-pillar:all-routes', dom2, routes, routes_orc,
           'the pillar is the same via the lunar date, the sexagenary-day view, the instant view and the civil date, and advances by one per civil day across lunar month ends, year ends and the 1582 cut-over; same for the weekday',
